@@ -132,6 +132,9 @@ func StartPool(path string, n int) (*Pool, error) {
 	return p, nil
 }
 func (p *Pool) Call(op string, args ...string) string {
+	if len(p.ms) == 0 {
+		return "!nomodel"
+	}
 	m := <-p.ch
 	defer func() { p.ch <- m }()
 	return m.Call(op, args...)
